@@ -10,7 +10,7 @@ from functools import lru_cache
 from . import refimpl as R
 from . import keys as K
 
-ILL = {"#int": 123, "#list": ["HS256"], "#null": None, "#bool": True, "#obj": {"a": 1}, "#float": 1.5}
+ILL = {"#int": 123, "#list": ["HS256"], "#null": None, "#bool": True, "#obj": {"a": 1}, "#float": 1.5, "#empty": ""}
 
 
 def conc_name(n):
